@@ -9,14 +9,18 @@ def execFacts : ExecFacts :=
     compile := ["gta", "cfg", "main-last"],
     importSrc := ["once", "rdir-check", "rdir-set", "gta", "cfg", "register", "root", "gen", "globals", "main-last", "init"] }
 
-/-- fingerprints (extract/common FuncHash) of the functions Model/VarInit.lean was transcribed from
-    (`genGlobalVarDecl`: as repaired for F15 — the scan restarts after every append; before the
-    repair the fingerprint was bed06c905a7effe9) -/
+/-- fingerprints (extract/common FuncHash) of the functions Model/VarInit.lean was transcribed from.
+    `genGlobalVarDecl`: as repaired for F15 (the scan restarts after every append; before:
+    bed06c905a7effe9) and by a9bfd4c (a specification waits for the `pending` ones, i.e. those of
+    the list that are not yet appended, instead of for `!inited`; before: af3f777c417db75e).
+    `getVarDependencies`: as rewritten by 004b9fa, 17bcf0b, ab398ff (identifiers resolved by
+    `n.sym`, references to functions and methods followed with a `seen` set, a reference of a
+    specification to itself kept; before: 45e633ad779f638c). -/
 def sourceHashes : List (String × String) :=
   [("getVars", "ba362aea20fadd90"),
    ("genGlobalVars", "28ae47950487a25c"),
-   ("genGlobalVarDecl", "af3f777c417db75e"),
-   ("getVarDependencies", "45e633ad779f638c"),
+   ("genGlobalVarDecl", "83cee830efddbb96"),
+   ("getVarDependencies", "2b12af0fae20c90e"),
    ("equalNodes", "5eb72e9c34fe6729")]
 
 /-- which function declarations are init functions, as read by hand:
@@ -41,5 +45,43 @@ def initHashes : List (String × String) :=
    ("Execute: loop over p.init", "bdc2b75dc8315f26"),
    ("gta: switch of case funcDecl (cases; bodies except the method case)", "0771fd44a7e9040c"),
    ("isMethod", "b176af51407e31d7")]
+
+/-- how the dependencies of a variable specification are found, as read by hand (round 3):
+    interp/cfg.go getVarDependencies, the function `visit` passed to `nod.Walk`
+      `switch { case n.kind == selectorExpr && n.action == aGetMethod: fn, _ = n.val.(*node)`      (17bcf0b, F14)
+      `         case n.kind != identExpr || n.sym == nil:`                                        (004b9fa, F15-4/5)
+      `         case n.sym.kind == funcSym: fn = n.sym.node`                                      (17bcf0b, F14)
+      `         case n.sym.kind == varSym && n.sym.global: deps = append(deps, n.sym.node) }`     (ab398ff, F15-6: no `&& n.sym.node != nod`)
+      `if fn != nil && !seen[fn] { seen[fn] = true; fn.Walk(visit, nil) }`
+    interp/gta.go gta `case defineXStmt:` — while the callee's type is incomplete
+      `revisit = append(revisit, n); return false` (e843e3f, F15-7), then `compDefineX`, then for the
+      declared names `sym.global, sym.node = true, n` (2be263c, F15-1/2);
+    interp/ast.go ast `case token.VAR:` `if anc.node != nil && anc.node.kind == fileStmt { a.Specs = splitVarSpecs(a.Specs) }` (14ebac5, F15-3) -/
+def depFacts : DepFacts :=
+  { resolve := .lexical,
+    followFuncs := true,
+    followMethods := true,
+    skipSelf := false,
+    multiGlobal := true,
+    multiRetry := true,
+    splitPaired := true }
+
+/-- the same decisions as the code made them before round 3 (what the extractor reads from the
+    parent of a9bfd4c); used by the regression examples that reproduce the repaired findings -/
+def depFactsBefore : DepFacts :=
+  { resolve := .byName,
+    followFuncs := false,
+    followMethods := false,
+    skipSelf := true,
+    multiGlobal := false,
+    multiRetry := false,
+    splitPaired := false }
+
+/-- fingerprints of the statements `depFacts` was read from (`getVarDependencies` is in `sourceHashes`) -/
+def depHashes : List (String × String) :=
+  [("gta: case defineXStmt", "51d7c97a02551840"),
+   ("gtaRetry", "737ad8e893ad854e"),
+   ("ast: case token.VAR", "d95ba4f780b05d24"),
+   ("splitVarSpecs", "9f5cbf17b563afa2")]
 
 end YaegiVerif.Expected.C15
